@@ -1,5 +1,6 @@
 """Core of the verification orchestrator: build (translator, Coq, extraction, harness), audit,
 sharded execution of implementation and model, comparison, oracle search, evidence, replay."""
+import uuid
 import fcntl
 import glob
 import hashlib
@@ -333,7 +334,17 @@ CLEAR = b"\x1b[2J\x1b[H\x1b[3J"
 _dlog_n = 0
 
 
+def cli_env(opts_s):
+    """environment of a CLI run: l=2 switches every log level on (arguments of log macros are then evaluated)"""
+    e = dict(os.environ)
+    e.pop("RUST_LOG", None)
+    if "l=2" in opts_s.split(","):
+        e["RUST_LOG"] = "trace"
+    return e
+
+
 def cli_args(opts_s, path):
+    global _dlog_n
     upd = "-1"
     for kv in opts_s.split(","):
         if kv.startswith("u="):
@@ -365,14 +376,21 @@ def cli_args(opts_s, path):
             for x in v.split("+"):
                 a += ["-M", x]
         elif k == "O":
-            a += ["-O", bytes.fromhex(v).decode("utf-8", "replace")]
+            val = bytes.fromhex(v).decode("utf-8", "replace")
+            # a value with a leading '-' (southern latitude) has to be attached, or clap reads it as an option
+            a += (["-O=" + val] if val.startswith("-") else ["-O", val])
             have_o = True
-        elif k == "D" and v == "1":
-            # --downlink-log: a fresh file per run (the option has no effect on the table; the model ignores it)
-            global _dlog_n
+        elif k == "l" and v in ("1", "2"):
+            # --error-log into a scratch file (l=2: with RUST_LOG=trace, see cli_env): logging must not change behaviour
             _dlog_n += 1
             os.makedirs(TMP, exist_ok=True)
-            f = os.path.join(TMP, "dlog-%d-%d.txt" % (os.getpid(), _dlog_n))
+            f = os.path.join(TMP, "dlog-%d-%s-e.txt" % (os.getpid(), uuid.uuid4().hex))
+            a += ["-l", f]
+        elif k == "D" and v == "1":
+            # --downlink-log: a fresh file per run (the option has no effect on the table; the model ignores it)
+            _dlog_n += 1
+            os.makedirs(TMP, exist_ok=True)
+            f = os.path.join(TMP, "dlog-%d-%s.txt" % (os.getpid(), uuid.uuid4().hex))
             if os.path.exists(f):
                 os.unlink(f)
             a += ["-D", f]
@@ -403,7 +421,14 @@ def run_cli_cases(cases, tag, profile="debug", timeout=60):
         with open(path, "wb") as f:
             f.write(content)
         try:
-            p = subprocess.run([exe] + cli_args(parts[2], path), stdout=subprocess.PIPE, stderr=subprocess.PIPE, timeout=timeout)
+            cargs = cli_args(parts[2], path)
+            p = subprocess.run([exe] + cargs, stdout=subprocess.PIPE, stderr=subprocess.PIPE, timeout=timeout, env=cli_env(parts[2]))
+            for a in cargs:
+                if os.path.basename(a).startswith("dlog-"):
+                    try:
+                        os.unlink(a)
+                    except OSError:
+                        pass
         except subprocess.TimeoutExpired:
             return cid, ("timeout", "")
         finally:
@@ -480,7 +505,21 @@ def run_tcp_case(parts, profile="debug"):
     first = events[0][0] if events else 0
     if first not in (3, 8):
         srv = listen()
-    proc = subprocess.Popen([exe, "-t", "127.0.0.1:%d" % port] + args, stdout=subprocess.PIPE, stderr=subprocess.PIPE)
+    proc = subprocess.Popen([exe, "-t", "127.0.0.1:%d" % port] + args, stdout=subprocess.PIPE, stderr=subprocess.PIPE, env=cli_env(parts[2]))
+    # drain stdout/stderr while the session runs: the program prints its legend at every connection, and a full pipe would
+    # block it (which would look like a decoder that stopped reconnecting)
+    import threading
+    bufs = {"out": bytearray(), "err": bytearray()}
+
+    def drain(f, key):
+        while True:
+            b = f.read(65536)
+            if not b:
+                break
+            bufs[key] += b
+    threads = [threading.Thread(target=drain, args=(proc.stdout, "out"), daemon=True), threading.Thread(target=drain, args=(proc.stderr, "err"), daemon=True)]
+    for th in threads:
+        th.start()
     t_last = time.time()
     gaps, accepted, keep = [], 0, []
     outcome = "ok"
@@ -506,6 +545,19 @@ def run_tcp_case(parts, profile="debug"):
             accepted += 1
             if typ == 5:
                 c.close()
+            elif typ == 11:
+                # a feeder that accepts and drops, thousands of times in a row (each a clean close: the loop reconnects at once)
+                c.close()
+                srv.settimeout(3.0)
+                for _ in range(int(data.decode() or "3000") - 1):
+                    try:
+                        c2, _ = srv.accept()
+                    except socket.timeout:
+                        outcome = "noconnect"
+                        break
+                    accepted += 1
+                    c2.close()
+                srv.settimeout(9.0)
             elif typ in (1, 4):
                 c.sendall(data)
                 time.sleep(0.3)
@@ -519,6 +571,14 @@ def run_tcp_case(parts, profile="debug"):
                 c.sendall(lines[-2] + b"\n")
                 keep.append(c)
                 time.sleep(0.6)
+            elif typ == 9:
+                # a line split by a pause: the bytes before '|' now, the rest 1.5 s later; then a clean close
+                a, b = data.split(b"|", 1)
+                c.sendall(a)
+                time.sleep(1.5)
+                c.sendall(b)
+                time.sleep(0.3)
+                c.close()
             elif typ in (2, 7):
                 # complete lines first, then a partial line, then a reset; type 7: the connection has been up for more
                 # than the 5 s retry pause when it is reset
@@ -541,7 +601,10 @@ def run_tcp_case(parts, profile="debug"):
     finally:
         time.sleep(0.2)
         proc.kill()
-        out, err = proc.communicate()
+        proc.wait()
+        for th in threads:
+            th.join(2.0)
+        out, err = bytes(bufs["out"]), bytes(bufs["err"])
         for c in keep:
             c.close()
         if srv is not None:
